@@ -173,7 +173,8 @@ fn check(c: &Case, ctx: &Ctx, via_cli: bool) -> Outcome {
                 // half of the cases write to a file with -o instead of stdout
                 let to_file = (t.rows.len() + n + i) % 2 == 1;
                 if to_file {
-                    let _ = std::fs::remove_file(d.join("aln_out.fa"));
+                    // the output file already exists and is long: it must be replaced, not overwritten from the start
+                    cli::plant_stale_output(&d.join("aln_out.fa"));
                     args.push("-o".into());
                     args.push("aln_out.fa".into());
                 }
